@@ -242,7 +242,7 @@ def check(tier):
     ]
     for name, m, w in mut:
         if w == "stoich":
-            ck.add_mutant(name, m, "stoich", "harness.C03", "stoich_job", dict(cases=cs[:40]))
+            ck.add_mutant(name, m, "stoich", "harness.C03", "stoich_job", dict(cases=[x for x in cs if x[0] >= 2 and x[3] >= 1][:24] + cs[:16]))
         elif w == "deriv":
             ck.add_mutant(name, m, "deriv", "harness.C03", "derivative_job", dict(cases=[(2, 2, False)]))
         else:
